@@ -241,7 +241,7 @@ def c15_6(ctx):
     cands = []
     for st in ast.walk(fn):
         # the generator table: a local or module-level sequence of ten integers used by the function
-        e = st.value if isinstance(st, ast.Assign) else (st if isinstance(st, ast.Name) and isinstance(st.ctx, ast.Load) else None)
+        e = st.value if isinstance(st, ast.Assign) else (st if isinstance(st, (ast.Name, ast.Tuple, ast.List)) and isinstance(getattr(st, "ctx", None), ast.Load) else None)
         if e is None:
             continue
         v = f.fold(e)
